@@ -170,6 +170,18 @@ def main(tier):
             if got != exp:
                 chk.violation(f"C16/anchor-char-literal glob={g!r}", f"`group --name {g}` selects {got} (exit {r.rc}{', panic' if r.panicked else ''}), the glob matches exactly {exp}",
                               {"glob": g, "got": got, "expected": exp, "stderr": r.err.decode("utf-8", "replace")[-400:]})
+        # an escaped backslash is a literal backslash, also inside the literal prefix that decides which directories are entered
+        bdir = os.path.join(work, "anch", "t2")
+        for rel in ("b\\1/f", "b1/f", "b\\x/f", "c\\/f"):
+            lib.write_file(os.path.join(bdir, rel), b"same2")
+        for g, exp in (("t2/b\\\\1/**", ["b\\1/f"]), ("t2/b\\\\*/**", ["b\\1/f", "b\\x/f"]), ("t2/b\\\\[0-9]/*", ["b\\1/f"]), ("t2/*\\\\1/f", ["b\\1/f"]),
+                       ("t2/c\\\\/**", ["c\\/f"]), ("t2/b1/**", ["b1/f"]), ("t2/b\\\\x/f", ["b\\x/f"])):
+            r = lib.run_fclones(["group", "t2", "--path", g, "--rf-over", "0", "-f", "fdupes"], os.path.dirname(bdir), lib.base_env(work), timeout=60)
+            got = sorted(os.path.relpath(l, bdir) for l in r.out.decode("utf-8", "replace").splitlines() if l.strip()) if r.rc == 0 else None
+            anch += 1
+            if got != sorted(exp):
+                chk.violation(f"C16/escaped-backslash glob={g!r}", f"`group --path {g}` selects {got} (exit {r.rc}), the glob matches exactly {sorted(exp)}",
+                              {"glob": g, "got": got, "expected": exp, "stderr": r.err.decode("utf-8", "replace")[-400:]})
         chk.cov["anchor_char_cases"] = anch
         chk.cov["selector_pairs"] = len(sel)
         chk.cov["evaluations"] = pairs
